@@ -48,6 +48,9 @@ CLAIMED = {
     "C11": ("other", "static effect (frame) analysis of the real AST per module and rule + pyvc contract (z3) for the seed plumbing + native twin-run monitor (bounded)",
             "An effect contract instead of a functional one: for every scheduler / searcher module in scope the AST contains no call of a process-global generator, clock-dependent or hash()/id() source and every sampling call site passes a generator (162 obligations: module x rule, guarded fall-backs justified one by one); TrialSchedulerWithSearcher.__init__ seeds its master generator with the given seed for every value incl. 0 without reading a global generator (pyvc); bounded second opinion: 12 model-free schedulers driven through 40 events twice with perturbed global generators and once more in a process with another PYTHONHASHSEED give identical traces.",
             "Scope = listed modules; determinism of numpy RandomState streams and dict ordering assumed; order-dependence on set iteration is only covered by the native twin runs; GP surrogate fitting (fresh-process twins) not covered.", "5/C11"),
+    "C16": ("other", "static state-coverage analysis of the real AST (constructor parameters vs clone_from_state / _restore_from_state) + native twin-continuation monitor (bounded): get_state / clone_from_state at every prefix, dill pickling of schedulers",
+            "State coverage: every constructor parameter of RandomSearcher / GridSearcher is passed by clone_from_state, restored from the state dictionary, or listed as irrelevant (12 obligations). Bounded native twin continuation: 7 searcher cases (random / grid, duplicates, initial points) snapshotted and re-created in a fresh instance at every prefix of a 10-event history, 4 schedulers pickled with dill at 3 positions, GP-FIFO searcher at 2 positions; original and copy are continued and compared. F3 (GridSearcher) is a recorded known finding; the RandomSearcher crash was repaired.",
+            "dill round trip only observed through continued traces; GP multi-fidelity searcher and HyperTune not exercised; fitted GP hyper-parameters compared only through suggestions; bounded histories.", "5/C16"),
     "C04": ("proof", "contract-based deductive verification: VCs generated from the real AST (pyvc) with loop invariants and modular callee contracts, discharged by z3/cvc5; bounded-shape stand-in for the cost-aware variant and for witnesses",
             "Unbounded verification conditions (rung contents of any length, 0..3 rungs) for PromotionRungSystem (find/mark/schedule/add/report/remove) and PASHA's resource cap in on_task_schedule, from /repo's source on every run; cost-aware eligibility bounded (<=4 entries).",
             "A-REAL; SortedList contract trusted; number of rungs concrete in proof units; cost values non-negative; PASHA ranking/epsilon logic and DyHPO not covered; pyvc encoding and SMT solvers trusted.", "5/C04"),
